@@ -485,7 +485,13 @@ func (s *Shadow) OnMessage(msg any) []Violation {
 	case *proto.Encapsulation:
 		st.Encap = clone(m)
 	case *proto.GlobalBGPConfigUpdate:
-		st.GlobalBGP = clone(m)
+		// An all-empty update is what Felix sends when the BGPConfiguration is deleted: it means
+		// "no global BGP config", the same as never having been told one.
+		if googleproto.Equal(m, &proto.GlobalBGPConfigUpdate{}) {
+			st.GlobalBGP = nil
+		} else {
+			st.GlobalBGP = clone(m)
+		}
 	default:
 		s.chk("ignored_message")
 	}
